@@ -231,6 +231,45 @@ def copy_programs(kind_):
     }
 
 
+def self_argument_programs(kind_):
+    """The collection's OWN nested children used as argument values: the result must be what built-in
+    data gives (arguments are snapshots), e.g. a swap must swap."""
+    if kind_ == "dict":
+        init = {"p": {"v": 1}, "q": {"v": [2]}, "n": 0}
+        return init, {
+            "x.update(swap own children)": (lambda x: x.update({"p": x["q"], "q": x["p"]}),
+                                            {"p": {"v": [2]}, "q": {"v": 1}, "n": 0}),
+            "x.reset(swap own children)": (lambda x: x.reset({"p": x["q"], "q": x["p"]}),
+                                           {"p": {"v": [2]}, "q": {"v": 1}}),
+            "x.reset(child under new key too)": (lambda x: x.reset({"p": x["p"], "r": x["p"], "q": x["q"]}),
+                                                 {"p": {"v": 1}, "r": {"v": 1}, "q": {"v": [2]}}),
+            "x.update(kwargs swap)": (lambda x: x.update(p=x["q"], q=x["p"]), {"p": {"v": [2]}, "q": {"v": 1}, "n": 0}),
+        }
+    init = [{"a": 2}, {"a": 1}, [3]]
+    return init, {
+        "l.reset(sorted own children)": (lambda x: x.reset(sorted(list(x)[:2], key=lambda n: n["a"]) + [x[2]]),
+                                         [{"a": 1}, {"a": 2}, [3]]),
+        "l.reset(reversed own children)": (lambda x: x.reset([x[2], x[1], x[0]]), [[3], {"a": 1}, {"a": 2}]),
+        "l[0:2]=reversed own children": (lambda x: x.__setitem__(slice(0, 2), [x[1], x[0]]), [{"a": 1}, {"a": 2}, [3]]),
+        "l.reset(own child twice)": (lambda x: x.reset([x[0], x[0]]), [{"a": 2}, {"a": 2}]),
+    }
+
+
+def case_self_argument(c, name, fn, want):
+    init, _ = self_argument_programs(env.kind_of(c))
+    res = env.resource_for(c, init)
+    try:
+        x = res.make(c)
+        fn(x)
+        got = model.to_plain(x())
+        disk = model.to_plain(res.make(c)())
+        if not model.exact_eq(got, want) or not model.exact_eq(disk, want):
+            return ("self-argument", "%s: result %r (fresh object: %r), built-in data gives %r" % (name, got, disk, want))
+    finally:
+        res.destroy()
+    return None
+
+
 def case_copy(c, name, fn):
     init, _ = copy_programs(env.kind_of(c))
     rx = env.resource_for(c, init)
@@ -299,6 +338,12 @@ def run_task(task):
             record(case_copy(c, nm, fn), "copy:" + nm)
         except Exception as e:  # noqa: BLE001
             record(("error", "copy:%s raised %s: %s" % (nm, type(e).__name__, e)), "copy:" + nm)
+    _, sps = self_argument_programs(kind_)
+    for nm, (fn, want) in sps.items():
+        try:
+            record(case_self_argument(c, nm, fn, want), "self:" + nm)
+        except Exception as e:  # noqa: BLE001
+            record(("error", "self:%s raised %s: %s" % (nm, type(e).__name__, e)), "self:" + nm)
     res["nontrivial"] = res["evaluations"]
     res["states"] = res["evaluations"]
     res["samples"] = [{"class": c, "entry_points": list(eps), "out_programs": list(outs), "copy_programs": list(cps),
